@@ -71,7 +71,7 @@ fn refused(mut c: HxCfg) -> HxCfg {
 
 /// scripts as transitions: a well-formed one, and one that fails after four commands have been applied
 fn scripted(mut c: HxCfg) -> HxCfg {
-    c.scripts = vec![0, 1];
+    c.scripts = vec![0, 1, 2, 3];
     c
 }
 
@@ -248,6 +248,8 @@ pub fn hx_plan(prop: &'static str, tier: &str) -> Vec<HxCfg> {
                 c.track_returned = true;
                 // the graph handed over to an object that has lived before (own allocator position)
                 c.clone_from_swap = c.clone_swap;
+                // scripts whose variable takes an id from next_id(), succeeding and failing later on
+                c.scripts = vec![2, 3];
                 c
             };
             if quick(tier) {
